@@ -77,7 +77,7 @@ class View:
         return ded
 
     def manager_cancel(self):
-        return self.cancel and self.cancel['kind'] in ('shutdown', 'exit-exc')
+        return self.cancel and self.cancel['kind'] in ('shutdown', 'exit-exc', 'interrupt-exit')
 
     def wit(self, **extra):
         w = {'scenario': _plain(self.sc), 'schedule_len': len(self.run.sch.choices)}
@@ -317,9 +317,11 @@ def judge_C07(v):
                             'transfer cancelled before it started still issued %s' % [e['op'] for e in reqs]))
             if v.events('cb-queued', ti):
                 out.append(('on-queued-for-unstarted-cancelled', v.wit(ti=ti), 'on_queued ran for a transfer cancelled before starting'))
-    if c['kind'] in ('shutdown', 'exit-exc'):
+    if c['kind'] in ('shutdown', 'exit-exc', 'interrupt-exit'):
         if c['kind'] == 'shutdown':
             want_t, want_m = CancelledError, c['msg']
+        elif c['kind'] == 'interrupt-exit':
+            want_t, want_m = CancelledError, 'KeyboardInterrupt()'
         elif c['exc'] == 'interrupt':
             want_t, want_m = CancelledError, 'KeyboardInterrupt()'
         elif c['exc'] == 'empty-msg':
@@ -344,6 +346,16 @@ def judge_C07(v):
 # --------------------------------------------------------------------------- C08
 def judge_C08(v):
     out = []
+    if v.run.failure is not None:
+        # the run did not finish (C04 reports the hang): a transfer whose on_done never ran although every
+        # thread is blocked or idle will never be announced — on_done does not run "exactly once"
+        for ti, t in enumerate(v.sc['transfers']):
+            if t['subscribers'] and ti in v.run.futures and not v.events('cb-done', ti) \
+                    and not any(s.get('reentrant') for s in t['subscribers']):
+                out.append(('on-done-never-ran', v.wit(ti=ti, status=v.run.futures[ti]._coordinator.status, failure=repr(v.run.failure)[:200]),
+                            'transfer %d (status %s) was never announced: on_done did not run and result() blocks for ever'
+                            % (ti, v.run.futures[ti]._coordinator.status)))
+        return out
     for ti, t in enumerate(v.sc['transfers']):
         oc = v.outcome(ti)
         if oc is None or not t['subscribers']:
@@ -442,6 +454,9 @@ def judge_C10(v):
         out.append(('concurrent-writes-to-one-destination', v.wit(), 'two writes to one destination overlapped'))
     st = getattr(v.run, 'exec_stats', None) or {}
     names = sorted(st)
+    if len(names) > 3:
+        out.append(('extra-executor', v.wit(executors=names),
+                    'the manager created %d thread pools (request, submission, io expected): limits are per pool' % len(names)))
     if len(names) >= 3:
         # executors are created in the order request, submission, io
         req, sub, ioe = names[0], names[1], names[2]
@@ -581,7 +596,7 @@ def judge_C18(v):
                     bad = _bytes_wrong(v, ti)
                     if bad:
                         out.append(('innocent-transfer-bytes', v.wit(ti=ti), bad))
-        if run.fresh is not None and not (c and c['kind'] in ('shutdown', 'exit-exc')):
+        if run.fresh is not None and not (c and c['kind'] in ('shutdown', 'exit-exc', 'interrupt-exit')):
             if run.fresh[0] != 'ok' or run.fresh[1] != b'fresh-object':
                 out.append(('manager-not-reusable', v.wit(fresh=repr(run.fresh)),
                             'a fresh transfer after the mix did not succeed: %r' % (run.fresh,)))
